@@ -10,6 +10,7 @@ import SharkVerif.Props.C10
 import SharkVerif.Lemmas.LineSearches
 import SharkVerif.Model.TrustRegion
 import SharkVerif.Lemmas.LBFGS
+import SharkVerif.Lemmas.TrustRegion
 namespace SharkVerif.C10
 open SharkVerif.Opt SharkVerif.BFGS
 
@@ -607,6 +608,43 @@ example :
   norm_num [TRN.init, TRN.subproblem, TRN.step, TR.trustRegionCG, TR.cgLoop, TR.toBorder, TR.borderDistance,
     TR.errorDifference, Vec.normSqr, Vec.dot, Vec.neg, Vec.axpy, Vec.add, Vec.zeros, Vec.get, Mat.mulVec, Scalar.min, Scalar.half,
     Scalar.two, Scalar.zero, Scalar.beq, Scalar.ofRat]
+
+/-- **trn_subproblem_predicts_decrease.**  For a symmetric `n × n` Hessian of *any* definiteness, every gradient and
+radius `≠ 0`: the sub-problem solver of `TrustRegionNewton::step` predicts no increase (`≤ 0`) at every interior exit
+(tolerance reached, iteration budget exhausted, immediate return) — because the CG loop keeps `residual = g + H·step`,
+`residualᵀdirection = -‖residual‖²` and `m(step) ≤ 0` (`TRInv`, `Lemmas/TrustRegion.lean`) — or it left through a
+boundary exit from a state `s'` that satisfies the invariant and lies inside the radius; for that case
+`toBorder_nonpos` shows `≤ 0` as well when `sqrt` is exact at the discriminant of that one call and the direction is
+non-zero (then `0 < τ`, and `τ ≤ α` in the positive-curvature case: `border_tau_bounds`).  Together with
+`trn_step_no_increase_partial`: the acceptance rule never increases the objective. -/
+theorem trn_subproblem_predicts_decrease (sqrt : Rat → Rat) (n : Nat) (s : TRN Rat) (hH : Dim n s.hessian)
+    (hsym : (matFn n s.hessian).transpose = matFn n s.hessian) (hg : s.gradient.length = n) (hdelta : s.delta ≠ 0) :
+    (TRN.subproblem sqrt s).1 ≤ 0 ∨
+    ∃ s', TRInv n s.hessian s.gradient s' ∧ Vec.normSqr s'.step < s.delta * s.delta ∧ BorderExit s.hessian s.delta s' ∧
+      TRN.subproblem sqrt s = TR.toBorder sqrt s.gradient s.delta s' (Mat.mulVec s.hessian s'.direction) := by
+  unfold TRN.subproblem
+  exact trustRegionCG_decrease sqrt n s.hessian hH hsym s.gradient hg _ s.delta hdelta
+
+/-- non-vacuity of the boundary case (`toBorder_nonpos`): `H = [[2]]`, `g = [2]`, radius `1/2`; the initial CG state
+`step = 0, residual = g, direction = -g` satisfies the invariant, lies inside, takes the second boundary exit
+(`α = 1/2`, `‖0 + α·d‖² = 1 ≥ 1/4`), `sqrt` is exact at the discriminant `1/16`: predicted change `-3/4 ≤ 0` -/
+example :
+    let sq : Rat → Rat := fun x => if x = 1/16 then 1/4 else 1
+    (TR.toBorder sq [2] (1/2) ⟨[0], [2], [-2], 4⟩ (Mat.mulVec [[2]] [-2])).1 ≤ 0 := by
+  intro sq
+  have hH : Dim 1 ([[2]] : Mat Rat) := ⟨rfl, fun r hr => by simp at hr; subst hr; rfl⟩
+  have hsym : (matFn 1 ([[2]] : Mat Rat)).transpose = matFn 1 [[2]] := by
+    ext i j; have hij : i = j := Subsingleton.elim _ _; subst hij; rfl
+  refine toBorder_nonpos sq 1 [[2]] hH hsym [2] rfl (1/2) ⟨[0], [2], [-2], 4⟩ ?_ ?_ ?_ ?_ ?_
+  · refine ⟨rfl, rfl, rfl, ?_, ?_, ?_, ?_⟩
+    · funext i; have hi : i = 0 := Subsingleton.elim _ _; subst hi; simp [vecFn, matFn, Matrix.mulVec, dotProduct]
+    · norm_num [vecFn, dotProduct]
+    · norm_num [vecFn, dotProduct]
+    · simp [modelChange, vecFn, matFn, Matrix.mulVec, dotProduct]
+  · norm_num [Vec.normSqr, Vec.dot, Scalar.zero, Scalar.ofRat]
+  · right; norm_num [Vec.normSqr, Vec.dot, Vec.axpy, Mat.mulVec, Scalar.zero, Scalar.ofRat]
+  · norm_num [Vec.normSqr, Vec.dot, Scalar.zero, Scalar.ofRat]
+  · norm_num [sq, Vec.normSqr, Vec.dot, Scalar.zero, Scalar.ofRat]
 
 /-! ### the CG–Steihaug solution stays inside the trust region -/
 
